@@ -57,7 +57,7 @@ def check_cfg(ctx, fx, cfg):
         for r in regs:
             check_registrar(ctx, fx, fx.fn(r), cfg)
         apis = timers.timer_apis(fx, regs)
-        ctx.floor("R06.2", "timer APIs (%s)" % cfg, len(apis), 4)
+        ctx.floor("R06.2", "timer APIs (%s)" % cfg, len(apis), 2)
         tcs = timers.timer_coroutines(fx)
         for f in tcs:
             crs = timers.creations(fx, f)
@@ -143,7 +143,7 @@ def check_timer_list(ctx, fx, cfg, ab, R_ATOMIC, R_ACCESS):
             t_ = b.term(bi)
             lent = False
             if adt == "context::Context" and inner and t_["k"] == "call":
-                cal = fx.fn(t_.get("resolved") or t_.get("callee") or "")
+                cal = fx.callee_fn(t_)
                 if cal is not None and (cal.get("impl_self") or "").split("<")[0] in inner and not cal.get("impl_trait"):
                     lent = True
             if not lent and adt == "context::Context" and inner:
@@ -152,7 +152,7 @@ def check_timer_list(ctx, fx, cfg, ab, R_ATOMIC, R_ACCESS):
                     for (_bi, _si, st) in defs:
                         if _bi == bi and st["r"]["k"] == "ref" and st["r"].get("p") == place:
                             sk = [s for s in sinks(b, l) if s["k"] == "call"]
-                            if sk and all((fx.fn(s["t"].get("resolved") or s["t"].get("callee") or "") or {}).get("impl_self", "").split("<")[0] in inner for s in sk):
+                            if sk and all((fx.callee_fn(s["t"]) or {}).get("impl_self", "").split("<")[0] in inner for s in sk):
                                 lent = True
             if not lent:
                 own.append(b.term(bi)["l"])
@@ -217,7 +217,7 @@ def check_registrar(ctx, fx, f, cfg):
         inner = {a for a, _f in timers.list_holders(fx)[1:]}
         helpers = []
         for hbi, ht in b.normal_calls():
-            h = fx.fn(ht.get("resolved") or ht.get("callee") or "")
+            h = fx.callee_fn(ht)
             if h is not None and (h.get("impl_self") or "").split("<")[0] in inner and not h.get("is_async") and any((x.get("callee") or "").endswith("abortable::abortable") for _y, x in ctx.body(fx, h).normal_calls()):
                 helpers.append((hbi, ht, h))
         if ctx.require(len(helpers) == 1, "R06.2", inst, "the registrar must wrap the timer future with abortable() exactly once (directly or through one method of the task list)", fn=f["def"], site=f["loc"]):
